@@ -111,8 +111,10 @@ impl EncodableSpecImpl for Ipv4Addr {
 impl EncodableSpecImpl for Ipv6Addr {
     open spec fn rlp(&self) -> Seq<u8> { rlp_str(ip6_octets(*self)) }
 }
+/// element-wise encodings of a sequence of encodable values
+pub open spec fn seq_rlp<T: Encodable>(s: Seq<T>) -> Seq<Seq<u8>> { Seq::new(s.len(), |i: int| s[i].rlp()) }
 impl<T: Encodable> EncodableSpecImpl for Vec<T> {
-    open spec fn rlp(&self) -> Seq<u8> { rlp_list(self@.map_values(|t: T| t.rlp())) }
+    open spec fn rlp(&self) -> Seq<u8> { rlp_list(seq_rlp(self@)) }
 }
 
 /// `alloy_rlp::Decodable`: ghost triple (accepts?, value, bytes consumed).
